@@ -91,7 +91,7 @@ int main(void)
 {
 	br_ssl_engine_context store;
 #ifdef NATIVE_REPLAY
-	memset(&store, 0, sizeof store);
+	NATIVE_FILL(&store, sizeof store);
 #endif
 	rcp = &store;
 	scramble();
